@@ -508,6 +508,11 @@ fn place(root: &Path, outside: &Path, loc: &str, kind: Kind, tick: i64) -> bool 
 // the jj side
 
 fn settings() -> UserSettings {
+    static SETTINGS: std::sync::OnceLock<UserSettings> = std::sync::OnceLock::new();
+    SETTINGS.get_or_init(make_settings).clone()
+}
+
+fn make_settings() -> UserSettings {
     let mut config = testutils::base_user_config();
     config.add_layer(
         ConfigLayer::parse(ConfigSource::User, "working-copy.exec-bit-change = \"respect\"\n")
@@ -841,25 +846,16 @@ fn state_key(o: &Obs) -> u64 {
         })
         .collect();
     let s = format!("{disk:?}|{:?}|{:?}|{:?}", o.disk.dirs, o.tree, o.patterns);
-    if let Ok(path) = std::env::var("C25_DUMP_STATES") {
-        use std::io::Write as _;
-        let mut f = std::fs::OpenOptions::new().create(true).append(true).open(path).unwrap();
-        writeln!(f, "{s}").unwrap();
-    }
     fnv(s.as_bytes())
 }
 
 fn run_case(case: &Case, tally: &Tally) -> CaseReport {
     let mut report = CaseReport { failures: vec![], state_keys: vec![], updates: 0, in_the_way: false, evaluated: false };
-    let t0 = std::time::Instant::now();
     let settings = settings();
     let mut ws = TestWorkspace::init_with_backend_and_settings(TestRepoBackend::Simple, &settings);
     let root = ws.workspace.workspace_root().to_owned();
     let outside = root.parent().unwrap().join("outside");
     make_outside(&outside);
-    if std::env::var("C25_TIMING").is_ok() {
-        eprintln!("init {:?}", t0.elapsed());
-    }
 
     // the starting point: T_old checked out (and the sparse patterns of the case)
     match run_update(&mut ws, &Update::Checkout(case.old.clone())) {
@@ -997,6 +993,10 @@ fn enumerate_cases(thorough: bool) -> Vec<Case> {
             }
             for ob in obstacles_for(&[old, new]) {
                 for snapshot_before in [false, true] {
+                    // quick: the snapshot variant for three of the five kinds
+                    if snapshot_before && !thorough && matches!(ob.1, Kind::LinkToOutsideFile | Kind::DanglingLinkToOutside) {
+                        continue;
+                    }
                     cases.push(Case {
                         old: old.into(),
                         patterns: full(),
@@ -1027,6 +1027,10 @@ fn enumerate_cases(thorough: bool) -> Vec<Case> {
                         continue;
                     }
                     for between in [false, true] {
+                        // quick: T0 as third tree only without the snapshot in between
+                        if !thorough && between && *third == "T0" {
+                            continue;
+                        }
                         cases.push(Case {
                             old: old.into(),
                             patterns: full(),
@@ -1069,8 +1073,8 @@ fn enumerate_cases(thorough: bool) -> Vec<Case> {
     }
     // family D: sparse patterns. Files at tree paths outside the patterns are the user's.
     let s = |v: &[&str]| v.iter().map(|x| x.to_string()).collect::<Vec<_>>();
-    let pattern_sets = [s(&["d"]), s(&["f"]), s(&["d/c"]), s(&[])];
-    for p0 in &pattern_sets {
+    let pattern_sets = [s(&["d"]), s(&["f"]), s(&[]), s(&["d/c"])];
+    for p0 in &pattern_sets[..if thorough { 4 } else { 3 }] {
         for ob in obstacles_for(&["S1", "S2"]) {
             for snapshot_before in [false, true] {
                 let mut updates = vec![Update::SetSparse(full()), Update::Checkout("S2".into()), Update::Checkout("T0".into())];
@@ -1234,9 +1238,9 @@ fn main() {
         distinct_nontrivial: nontrivial.get(),
         rule: "histories check_out(T_old) [set_sparse_patterns] -> obstacle(s) [-> snapshot ignoring new files] -> update [[-> snapshot] -> \
                update]: (A) every ordered pair of the 11 trees x every obstacle (location in paths and parent directories of \
-               either tree, or a sibling in d/; 5 kinds) x {no snapshot, snapshot}; (B) the same followed by a second check_out \
-               (quick: third tree in {T0, T4}, kinds file and symlink-to-outside-directory; thorough: all) x {no snapshot, \
-               snapshot between}; (C, thorough) pairs of obstacles at disjoint locations; (D) sparse patterns: tree S1 under 4 \
+               either tree, or a sibling in d/; 5 kinds) x {no snapshot, snapshot (quick: not for the two symlink-to-file kinds)}; (B) the same followed by a second check_out \
+               (quick: third tree in {T0, T4}, kinds file and symlink-to-outside-directory, T0 without the snapshot; thorough: all) x {no snapshot, \
+               snapshot between}; (C, thorough) pairs of obstacles at disjoint locations; (D) sparse patterns: tree S1 under 3 (thorough 4) \
                pattern sets x obstacles x {widen to everything, other pattern sets, check_out S2 / T0, check_out then widen}. \
                Each history is generated once. evaluations = histories executed (those whose obstacle cannot be placed because \
                a parent is a file are not counted); non-trivial = an obstacle lies at, above or below a path whose tree value \
